@@ -24,6 +24,9 @@
 #include <shark/Models/Kernels/KernelExpansion.h>
 #include <shark/Models/Kernels/EvalSkipMissingFeatures.h>
 #include <shark/Models/LinearModel.h>
+#include <shark/Models/NeuronLayers.h>
+#include <shark/Models/ConcatenatedModel.h>
+#include <omp.h>
 #include <shark/Algorithms/Trainers/NormalizeKernelUnitVariance.h>
 #include <shark/Data/Dataset.h>
 #include <boost/shared_ptr.hpp>
@@ -629,6 +632,100 @@ struct Session{
 			}
 		return out;
 	}
+
+	// op `gramt N bs`: THREAD-COUNT SWEEP of the blockwise Gram assembly.  calculateRegularizedKernelMatrix /
+	// calculateMixedKernelMatrix evaluate the blocks of a block row inside SHARK_PARALLEL_FOR on ONE shared kernel
+	// object; the dataset is N points (the current points, cyclically, as contiguous segments of alternating sizes
+	// bs / bs-1, so that consecutive blocks have different shapes), assembled with 2, 3, 4 and 1 OpenMP threads and
+	// compared entry by entry with single evaluations (oracle only; bitwise for kernels without NormalizedKernel).
+	std::string gramThreads(std::size_t N, std::size_t bs) const{
+		std::size_t n = pts.size();
+		if(n == 0 || bs == 0 || N == 0 || N > 4096) return "bad-op";
+		RealMatrix R(n,n);
+		for(std::size_t i = 0; i != n; ++i) for(std::size_t j = 0; j != n; ++j) R(i,j) = k->eval(pts[i], pts[j]);
+		double scale = maxAbs(R);
+		Data<I> d; std::vector<std::size_t> idx; std::size_t a = 0; bool alt = false;
+		std::vector<std::pair<std::size_t,std::size_t> > segs;
+		while(idx.size() < N){
+			std::size_t want = (alt && bs > 1) ? bs - 1 : bs;
+			std::size_t sz = std::min(std::min(want, n - a), N - idx.size());
+			d.push_back(batch(a, a + sz)); segs.push_back(std::make_pair(a, sz));
+			for(std::size_t q = 0; q != sz; ++q) idx.push_back(a + q);
+			a = (a + sz) % n; alt = !alt;
+		}
+		std::size_t nb1 = segs.size() / 2, n1 = 0;
+		Data<I> d1, d2;
+		for(std::size_t b = 0; b != segs.size(); ++b){
+			if(b < nb1){ d1.push_back(batch(segs[b].first, segs[b].first + segs[b].second)); n1 += segs[b].second; }
+			else d2.push_back(batch(segs[b].first, segs[b].first + segs[b].second));
+		}
+		int before = omp_get_max_threads();
+		std::string out = "ok";
+		static const int sweep[4] = {2, 3, 4, 1};
+		for(int T: sweep){
+			omp_set_num_threads(T);
+			RealMatrix M = calculateRegularizedKernelMatrix(*k, d, 0.0);
+			if(M.size1() != N || M.size2() != N){ out += " !oracle gram-threads-shape"; break; }
+			bool bad = false;
+			for(std::size_t i = 0; i != N && !bad; ++i) for(std::size_t j = 0; j != N; ++j)
+				if(!close(M(i,j), R(idx[i],idx[j]), scale)){
+					std::ostringstream os; os << " !oracle gram-threads T=" << T << " batches=" << d.numberOfBatches() << " (" << i << "," << j << ") gram=" << val(M(i,j)) << " single=" << val(R(idx[i],idx[j]));
+					out += os.str(); bad = true; break;
+				}
+			if(bad) break;
+			if(nb1 > 0 && T != 1){
+				RealMatrix X = calculateMixedKernelMatrix(*k, d1, d2);
+				if(X.size1() != n1 || X.size2() != N - n1){ out += " !oracle gram-threads-shape"; break; }
+				for(std::size_t i = 0; i != n1 && !bad; ++i) for(std::size_t j = 0; j != N - n1; ++j)
+					if(!close(X(i,j), R(idx[i],idx[n1+j]), scale)){
+						std::ostringstream os; os << " !oracle gram-threads-mixed T=" << T << " (" << i << "," << j << ") gram=" << val(X(i,j)) << " single=" << val(R(idx[i],idx[n1+j]));
+						out += os.str(); bad = true; break;
+					}
+				if(bad) break;
+			}
+		}
+		omp_set_num_threads(before);
+		return out;
+	}
+	// op `reuse a b c d  a2 b2 c2 d2  coeffs((b2-a2)*(d2-c2))`: ONE State object is used for two consecutive stateful
+	// evaluations on different pairs of batches (different shapes), with derivative calls after each; what the second
+	// round returns must be what a fresh State returns (kernel value block, parameter and input derivative, bitwise)
+	std::string reuseState(std::vector<std::string> const& t) const{
+		std::vector<std::size_t> a;
+		std::vector<std::string> head(t.begin(), t.begin() + std::min<std::size_t>(t.size(), 9));
+		if(t.size() < 9 || !vh::allNat(head, 1, a) || a.size() != 8) return "bad-op";
+		for(int q = 0; q != 8; q += 2) if(!(a[q] < a[q+1] && a[q+1] <= pts.size())) return "bad-op";
+		RealMatrix C;
+		if(!coeffs(t, 9, a[5]-a[4], a[7]-a[6], C)) return "bad-op";
+		typename Batch<I>::type p1 = batch(a[0],a[1]), p2 = batch(a[2],a[3]), b1 = batch(a[4],a[5]), b2 = batch(a[6],a[7]);
+		boost::shared_ptr<State> st = k->createState(), fresh = k->createState();
+		RealMatrix M0, M, Mf;
+		k->eval(p1, p2, M0, *st);
+		RealMatrix C0(a[1]-a[0], a[3]-a[2], 1.0);
+		if(k->hasFirstParameterDerivative()){ RealVector g0; k->weightedParameterDerivative(p1, p2, C0, *st, g0); }
+		if(k->hasFirstInputDerivative() && InputDeriv<I>::supported()) InputDeriv<I>::run(*k, p1, p2, C0, *st);
+		k->eval(b1, b2, M, *st);
+		k->eval(b1, b2, Mf, *fresh);
+		std::string out = "ok";
+		if(M.size1() != Mf.size1() || M.size2() != Mf.size2()) return out + " !oracle state-reuse-eval shape";
+		for(std::size_t i = 0; i != M.size1(); ++i) for(std::size_t j = 0; j != M.size2(); ++j)
+			if(!(M(i,j) == Mf(i,j) || (std::isnan(M(i,j)) && std::isnan(Mf(i,j))))) return out + " !oracle state-reuse-eval";
+		if(k->hasFirstParameterDerivative()){
+			RealVector g, gf; k->weightedParameterDerivative(b1, b2, C, *st, g); k->weightedParameterDerivative(b1, b2, C, *fresh, gf);
+			if(g.size() != gf.size()) return out + " !oracle state-reuse-param size";
+			for(std::size_t i = 0; i != g.size(); ++i)
+				if(!(g(i) == gf(i) || (std::isnan(g(i)) && std::isnan(gf(i))))){
+					std::ostringstream os; os << " !oracle state-reuse-param p=" << i << " fresh=" << gf(i) << " reused=" << g(i); return out + os.str();
+				}
+		}
+		if(k->hasFirstInputDerivative() && InputDeriv<I>::supported()){
+			RealMatrix G = InputDeriv<I>::run(*k, b1, b2, C, *st), Gf = InputDeriv<I>::run(*k, b1, b2, C, *fresh);
+			if(G.size1() != Gf.size1() || G.size2() != Gf.size2()) return out + " !oracle state-reuse-input shape";
+			for(std::size_t i = 0; i != G.size1(); ++i) for(std::size_t j = 0; j != G.size2(); ++j)
+				if(!(G(i,j) == Gf(i,j) || (std::isnan(G(i,j)) && std::isnan(Gf(i,j))))) return out + " !oracle state-reuse-input";
+		}
+		return out;
+	}
 	// generic op dispatch; returns false if the op is not a session op
 	bool dispatch(std::vector<std::string> const& t, std::string& out) const{
 		std::string const& op = t[0];
@@ -642,6 +739,11 @@ struct Session{
 			out = op == "fdistb" ? fdistBlock(a[0], a[1], a[2], a[3]) : block(a[0], a[1], a[2], a[3], op == "sblock"); return true;
 		}
 		if(op == "flags"){ out = t.size() == 1 ? flags() : "bad-op"; return true; }
+		if(op == "gramt"){
+			if(!vh::allNat(t, 1, a) || a.size() != 2){ out = "bad-op"; return true; }
+			out = gramThreads(a[0], a[1]); return true;
+		}
+		if(op == "reuse"){ out = reuseState(t); return true; }
 		if(op == "gderiv" || op == "gderivx"){
 			if(!vh::allNat(t, 1, a) || a.empty()){ out = "bad-op"; return true; }
 			out = gramDeriv(a, op == "gderivx"); return true;
@@ -683,6 +785,82 @@ template<> struct PointSets<RealVector>{
 			ps.pts.push_back(X); pos += s;
 		}
 		return true;
+	}
+};
+
+
+// ModelKernel over a ConcatenatedModel chain (models WITH a batch-dependent State: the chain stores the hidden
+// responses of every layer): op `mnet L spec_1 .. spec_L  params..` wraps the current vector kernel; layer specs as in
+// harness/c04.cpp: d:<act>:<hasB>:<nOut>:<opt> (LinearModel<RealVector,Act>), n:<act>:<opt> (NeuronLayer), r:<softmax|
+// normalizer>:<opt>; params = the parameters of ALL dense layers in layer order.  Dense inputs only.
+typedef AbstractModel<RealVector,RealVector,RealVector> AnyModel;
+static AnyModel* makeDenseLayer(std::string const& act, std::size_t nIn, std::size_t nOut, bool hb){
+	if(act == "linear") return new LinearModel<RealVector, LinearNeuron>(nIn, nOut, hb);
+	if(act == "rectifier") return new LinearModel<RealVector, RectifierNeuron>(nIn, nOut, hb);
+	if(act == "tanh") return new LinearModel<RealVector, TanhNeuron>(nIn, nOut, hb);
+	if(act == "logistic") return new LinearModel<RealVector, LogisticNeuron>(nIn, nOut, hb);
+	if(act == "fastsigmoid") return new LinearModel<RealVector, FastSigmoidNeuron>(nIn, nOut, hb);
+	return 0;
+}
+static AnyModel* makeNeuronLayer(std::string const& act, std::size_t n){
+	if(act == "linear") return new NeuronLayer<LinearNeuron>(n);
+	if(act == "rectifier") return new NeuronLayer<RectifierNeuron>(n);
+	if(act == "tanh") return new NeuronLayer<TanhNeuron>(n);
+	if(act == "logistic") return new NeuronLayer<LogisticNeuron>(n);
+	if(act == "fastsigmoid") return new NeuronLayer<FastSigmoidNeuron>(n);
+	if(act == "softmax") return new NeuronLayer<SoftmaxNeuron<> >(n);
+	if(act == "normalizer") return new NeuronLayer<NormalizerNeuron<> >(n);
+	return 0;
+}
+struct NetHolder{
+	std::vector<boost::shared_ptr<AnyModel> > owned;
+	ConcatenatedModel<RealVector> net;
+	boost::shared_ptr<AbstractKernelFunction<RealVector> > kernel;
+	bool exactActs;
+	NetHolder(): exactActs(true){}
+};
+template<class I> struct ModelNets{
+	static bool supported(){ return false; }
+	static std::string make(AbstractKernelFunction<I>*, std::vector<I> const&, std::vector<std::string> const&, boost::shared_ptr<NetHolder>&, Session<RealVector>&, double){ return "unsupported"; }
+};
+template<> struct ModelNets<RealVector>{
+	static bool supported(){ return true; }
+	static std::string make(AbstractKernelFunction<RealVector>* base, std::vector<RealVector> const& pts, std::vector<std::string> const& t,
+			boost::shared_ptr<NetHolder>& holder, Session<RealVector>& ms, double baseTol){
+		std::size_t L;
+		if(!base || pts.empty() || t.size() < 2 || !parseNat(t[1], L) || L == 0 || t.size() < 2 + L) return "bad-op";
+		boost::shared_ptr<NetHolder> h(new NetHolder());
+		std::size_t nIn = pts[0].size(), pos = 2 + L;
+		for(std::size_t l = 0; l != L; ++l){
+			std::vector<std::string> f; { std::string cur; for(char ch: t[2+l]){ if(ch == ':'){ f.push_back(cur); cur.clear(); } else cur += ch; } f.push_back(cur); }
+			if(f[0] == "d" && f.size() == 5){
+				bool hb = f[2] == "1"; std::size_t nOut; if(!parseNat(f[3], nOut) || nOut == 0) return "bad-op";
+				AnyModel* m = makeDenseLayer(f[1], nIn, nOut, hb); if(!m) return "bad-op";
+				h->owned.push_back(boost::shared_ptr<AnyModel>(m));
+				std::size_t np = nOut*nIn + (hb ? nOut : 0);
+				if(pos + np > t.size()) return "bad-op";
+				RealVector lp(np); for(std::size_t q = 0; q != np; ++q){ double v; if(!parseVal(t[pos+q], v)) return "bad-op"; lp(q) = v; }
+				pos += np; m->setParameterVector(lp);
+				h->net.add(m, f[4] == "1"); nIn = nOut;
+				if(f[1] != "linear" && f[1] != "rectifier") h->exactActs = false;
+			}else if((f[0] == "n" || f[0] == "r") && f.size() == 3){
+				AnyModel* m = makeNeuronLayer(f[1], nIn); if(!m) return "bad-op";
+				h->owned.push_back(boost::shared_ptr<AnyModel>(m));
+				h->net.add(m, f[2] == "1");
+				if(f[1] != "linear" && f[1] != "rectifier") h->exactActs = false;
+			}else return "bad-op";
+		}
+		if(pos != t.size()) return "bad-op";
+		h->kernel.reset(new ModelKernel<RealVector>(base, &h->net));
+		holder = h;
+		ms.k = h->kernel.get(); ms.pts = pts;
+		// hidden responses behind tanh / exp are inexact: the model's matrix products may round differently for
+		// different batch shapes (single evaluation = 1-row batch), so the value oracles allow 4 ulp / 1e-13 relative there
+		ms.tolUlp = h->exactActs ? baseTol : 4; ms.inexact = true;
+		std::ostringstream os; os << "ok np=" << ms.k->numberOfParameters() << " pd=" << (ms.k->hasFirstParameterDerivative() ? 1 : 0);
+		if(ms.k->parameterVector().size() != ms.k->numberOfParameters()) os << " !oracle parameter-vector-size";
+		if(ms.k->numberOfParameters() != base->numberOfParameters() + h->net.numberOfParameters()) os << " !oracle model-kernel-parameter-count";
+		return os.str();
 	}
 };
 
@@ -794,6 +972,8 @@ int run(){
 	Session<I> vs;                      // vector-input kernels
 	Session<std::size_t> ds;            // DiscreteKernel
 	Session<RealMatrix> ps;             // PointSetKernel over the current vector kernel
+	Session<RealVector> ms;             // ModelKernel over a ConcatenatedModel chain over the current vector kernel
+	boost::shared_ptr<NetHolder> net;
 	boost::shared_ptr<AbstractKernelFunction<RealMatrix> > psHolder;
 	boost::shared_ptr<DiscreteKernel> disc;
 	boost::shared_ptr<KernelExpansion<I> > kexp;
@@ -818,7 +998,7 @@ int run(){
 				}
 			}
 			else if(t[0] == "kern"){
-				ps.k = 0; psHolder.reset(); kexp.reset();
+				ps.k = 0; psHolder.reset(); kexp.reset(); ms.k = 0; net.reset();
 				delete builder; builder = new Builder<I>();
 				std::size_t p = 1;
 				vs.k = builder->parse(t, p);
@@ -855,6 +1035,19 @@ int run(){
 				std::vector<std::string> rest(t.begin()+1, t.end());
 				if(!PointSets<I>::supported()) out = "unsupported";
 				else if(rest.empty() || !ps.k || !ps.dispatch(rest, out)) out = "bad-op";
+			}
+			else if(t[0] == "mnet"){
+				ms.k = 0; net.reset();
+				if(!ModelNets<I>::supported()) out = "unsupported";
+				else if(discrete) out = "bad-op";
+				else out = ModelNets<I>::make(vs.k, vs.pts, t, net, ms, vs.tolUlp);
+			}
+			else if(t[0] == "mn"){
+				std::vector<std::string> rest(t.begin()+1, t.end());
+				if(!ModelNets<I>::supported()) out = "unsupported";
+				else if(rest.empty() || !ms.k) out = "bad-op";
+				else if(rest[0] == "setparams") out = ms.setParams(rest);
+				else if(!ms.dispatch(rest, out)) out = "bad-op";
 			}
 			else if(t[0] == "ipts"){
 				std::vector<std::size_t> a;
